@@ -34,8 +34,8 @@ pub fn run(args: &Args) -> i32 {
     .floor("c44:time_queries_checked", 200)
     .floor("c44:rejected_or_failed_round_changes", 50);
     let mut report = Report::new(args, spec);
-    let ledgers_per_shard = args.tier.pick(2u64, 12);
-    let steps = scaled(args, args.tier.pick(700, 6000));
+    let ledgers_per_shard = args.tier.pick(4u64, 40);
+    let steps = scaled(args, args.tier.pick(3000, 12_000));
     let budget = Duration::from_secs(budget_secs(args.tier, 60, 900));
     report.run_shards(44, args.threads, budget, |i, rng, shard| {
         for l in 0..ledgers_per_shard {
@@ -117,8 +117,22 @@ pub fn run(args: &Args) -> i32 {
                                 TimeComparisonOperator::Gt => now_s > probe_rounded,
                                 TimeComparisonOperator::Gte => now_s >= probe_rounded,
                             };
-                            if got_cmp != exp {
-                                shard.violation("compare_current_time-disagrees-with-recorded-clock", json!({"precision": format!("{precision:?}"), "operator": format!("{op:?}"), "instant": probe.seconds_since_unix_epoch, "recorded_clock": format!("{clock:?}"), "expected": exp, "got": got_cmp}));
+                            // Documented contract (scrypto/src/runtime/clock.rs): the instant is "also rounded
+                            // down". For instants before 1970 that are not whole minutes the engine divides
+                            // toward zero instead; that one class gets its own signature (known finding).
+                            let cmp = |a: i64, b: i64| match op {
+                                TimeComparisonOperator::Eq => a == b,
+                                TimeComparisonOperator::Lt => a < b,
+                                TimeComparisonOperator::Lte => a <= b,
+                                TimeComparisonOperator::Gt => a > b,
+                                TimeComparisonOperator::Gte => a >= b,
+                            };
+                            let toward_zero = probe.seconds_since_unix_epoch / 60 * 60;
+                            if got_cmp != exp && !second && probe.seconds_since_unix_epoch < 0 && probe.seconds_since_unix_epoch % 60 != 0 && got_cmp == cmp(now_s, toward_zero) {
+                                shard.count("c44:pre_1970_minute_probes_rounded_toward_zero");
+                                shard.violation("compare_current_time:minute-precision:pre-1970-instant-rounded-toward-zero-instead-of-down", json!({"precision": "Minute", "operator": format!("{op:?}"), "instant": probe.seconds_since_unix_epoch, "recorded_clock": format!("{clock:?}"), "expected_with_round_down": exp, "got": got_cmp}));
+                            } else if got_cmp != exp {
+                                shard.violation("compare_current_time-disagrees-with-recorded-clock",json!({"precision": format!("{precision:?}"), "operator": format!("{op:?}"), "instant": probe.seconds_since_unix_epoch, "recorded_clock": format!("{clock:?}"), "expected": exp, "got": got_cmp}));
                             }
                             shard.nontrivial(&("time_query", second, format!("{op:?}"), exp));
                         }
